@@ -487,10 +487,10 @@ End EncLeaves.
 (* ================================================================================== *)
 (* Part B: what parse_segment builds satisfies the placement invariant                  *)
 
-Section Admission.
+Section Acceptance.
 Variable t : tables.
 
-(* admission appends and changes nothing else *)
+(* acceptance appends and changes nothing else *)
 Lemma add_subs_full kids : forall c c',
   add_subs t TOLERANT c kids = Ok c' -> c' = mk_comp (c_name c) (c_dt c) (c_st c) (c_children c ++ kids).
 Proof.
@@ -548,7 +548,7 @@ Proof.
       repeat split; try assumption. intros Hinf H3' x i [<-|Hx] Hn; [congruence|now apply (H7 Hinf H3' x i)].
 Qed.
 
-End Admission.
+End Acceptance.
 
 Section Shapes.
 Variable t : tables.
